@@ -9,6 +9,7 @@ import math
 from harness.core import cq_N, cq_Z, cq_bool, cq_list, cq_nat, cq_opt, cq_pair, cq_str
 
 KEYS = ["value", "factor", "addend", "path", "divisor", "k", "j", "seq", "t_values"]
+DOTTED = ["acq.gain", "x.y"]
 _ready = [False]
 
 
@@ -515,7 +516,13 @@ def gen_pipeline(rng, stats, maxlen=8, malformed=0.0, extra=False):
             # context-only nodes
             c = rng.choice(["rename", "delete", "template", "template"])
 
-            def pick():
+            def pick(dotted_ok=False):
+                if dotted_ok and rng.random() < 0.14:       # a key containing a dot (legal context key; not usable as a template hole)
+                    k = rng.choice(DOTTED)
+                    if k not in avail and rng.random() < 0.8:
+                        need[k] = gen_value(rng, "num")
+                        avail.add(k)
+                    return k
                 av = sorted(k for k in avail if k in KEYS[:7])
                 if av and rng.random() < 0.85:
                     return rng.choice(av)
@@ -525,13 +532,13 @@ def gen_pipeline(rng, stats, maxlen=8, malformed=0.0, extra=False):
                     avail.add(k)
                 return k
             if c == "rename":
-                a = pick()
-                b = rng.choice([k for k in KEYS if k != a]) if rng.random() < 0.92 else a
+                a = pick(True)
+                b = rng.choice([k for k in KEYS + DOTTED if k != a]) if rng.random() < 0.92 else a
                 n = {"k": "rename", "a": a, "b": b}
                 if rng.random() < 0.12:
                     n["cfg"] = {a: gen_value(rng, "any")}
             elif c == "delete":
-                a = pick()
+                a = pick(True)
                 n = {"k": "delete", "a": a}
                 if rng.random() < 0.12:
                     n["cfg"] = {a: gen_value(rng, "any")}
